@@ -298,11 +298,15 @@ Section Shape.
     let* n := is_square_u (length a) in
     Some (map (fun i => nth (i * n + i) a d) (seq 0 n)).
 
-  (** comparisons.  [rel_diff] is the repaired, sign-aware one of [vec.rs] *)
+  (** comparisons.  [rel_diff] is the repaired, sign-aware one of [vec.rs]; an infinite difference ([diff.is_infinite()]:
+      [diff] is an absolute value, so it is infinite exactly when it equals [1 / 0]) is returned as it is -- for [inf] and
+      [-inf] the quotient would be [inf / inf = NaN], which no tolerance test rejects *)
   Definition rel_diff (x y : T) : T :=
     if eqb O x d then abs O y
     else if eqb O y d then abs O x
-    else div O (abs O (sub O x y)) (fmin O (abs O x) (abs O y)).
+    else let diff := abs O (sub O x y) in
+         if eqb O diff (div O (one O) (zero O)) then diff
+         else div O diff (fmin O (abs O x) (abs O y)).
   Definition close_to_v (x y : list T) (tol : T) : bool :=
     if negb (length x =? length y) then false
     else forallb (fun i => negb (ltb O tol (rel_diff (nth i x d) (nth i y d)))) (seq 0 (length x)).
